@@ -49,6 +49,19 @@ def norm_type(t):
     return t
 
 
+def _strip_targs(t):
+    """A<x, y<z>>::B<w> -> A::B (base classes nested in a class template)"""
+    out, depth = '', 0
+    for ch in t:
+        if ch == '<':
+            depth += 1
+        elif ch == '>':
+            depth -= 1
+        elif depth == 0:
+            out += ch
+    return out
+
+
 def strip_ptr(t):
     return t.rstrip('*& ')
 
@@ -253,7 +266,7 @@ class Lower:
         rec = self.records[recq]
         for b in rec.get('bases', []):
             bt = norm_type(b['type'].get('desugaredQualType') or b['type']['qualType'])
-            if bt.split('<')[0].split('::')[-1] == bname.split('<')[0]:
+            if bt.split('<')[0].split('::')[-1] == bname.split('<')[0] or _strip_targs(bt).split('::')[-1] == bname.split('<')[0]:
                 if self.u_flat(recq):
                     return None
                 return 'vs_base_' + self.mangle(bname.split('<')[0])
@@ -266,7 +279,7 @@ class Lower:
         rec = self.records[recq]
         for b in rec.get('bases', []):
             bt = norm_type(b['type'].get('desugaredQualType') or b['type']['qualType'])
-            if bt.split('<')[0].split('::')[-1] == bname.split('<')[0]:
+            if bt.split('<')[0].split('::')[-1] == bname.split('<')[0] or _strip_targs(bt).split('::')[-1] == bname.split('<')[0]:
                 return self.find_record(bt)
         return None
 
@@ -1789,6 +1802,8 @@ class Lower:
         for b in rec.get('bases', []):
             bt = norm_type(b['type'].get('desugaredQualType') or b['type']['qualType'])
             bname = bt.split('<')[0].split('::')[-1]
+            if '>::' in bt:                      # a base nested in a class template: A<x>::B -> B
+                bname = _strip_targs(bt).split('::')[-1]
             if self.u_flat(q):
                 br = self.find_record(bt)
                 if br:
